@@ -32,6 +32,7 @@ type Obligation struct {
 	Model   map[string]string
 	Inputs  []InputVar // values to extract from a model
 	MustFail bool      // vacuity canary: expected to be sat
+	ClauseProps []string // the clause is only part of these properties' checks (empty: all of the function's)
 }
 
 type InputVar struct {
@@ -89,6 +90,7 @@ type VC struct {
 	guardsOn  bool
 	inTypeInv bool
 	lastTrigger Term
+	curClauseProps []string
 	modSet    []modItem
 	merges    map[string][]string // merged reach constant -> its edge conditions
 	rowOf     map[string]Term     // slice term -> its backing array as a value (spec parameters)
@@ -192,7 +194,7 @@ func (vc *VC) Oblige(kind, label string, pos token.Pos, st *State, goal Term, de
 		name += ":" + label
 	}
 	o := &Obligation{Name: name, Kind: kind, Func: relFuncName(vc.fn), Pos: vc.posOf(pos), Desc: desc,
-		Reach: st.reach, Goal: goal, NDecls: len(vc.decls), Inputs: vc.inputs}
+		Reach: st.reach, Goal: goal, NDecls: len(vc.decls), Inputs: vc.inputs, ClauseProps: vc.curClauseProps}
 	if vc.ct != nil {
 		o.Props = vc.ct.Props
 	}
